@@ -323,6 +323,27 @@ def run_case(c, per_cfg_s):
                 placements=[[log.vid(v), list(xy)] for v, xy in pl.items()],
                 machine=[[list(xy), sorted([r, q] for r, q in d.items())] for xy, d in sorted(mach.items())],
                 l2v=[[list(xy), [log.vid(v) for v in vs]] for xy, vs in sorted(l2v.items())])
+    # 11 object reuse: the rig objects (vertices_resources, nets, Machine, constraint objects) are built ONCE
+    #    and several placers run one after the other on the same objects
+    if c.get("reuse"):
+        vr, nets, m, cs = fresh()
+        seed = c["seed"]
+        runners = {
+            "seq": lambda: sequential.place(vr, nets, m, cs),
+            "bf": lambda: breadth_first.place(vr, nets, m, cs),
+            "hilbert": lambda: hilbert.place(vr, nets, m, cs),
+            "rcm": lambda: rcm.place(vr, nets, m, cs),
+            "rand_real": lambda: rand.place(vr, nets, m, cs, random=pyrandom.Random(seed)),
+            "sa_c": lambda: sa_algorithm.place(vr, nets, m, cs, effort=c["effort"],
+                                               random=pyrandom.Random(seed), kernel=CKernel),
+            "sa_py": lambda: sa_algorithm.place(vr, nets, m, cs, effort=c["effort"],
+                                                random=pyrandom.Random(seed), kernel=PythonKernel,
+                                                kernel_kwargs=dict(no_warn=True)),
+        }
+        for i, cfg in enumerate(c["reuse"]):
+            if cfg == "sa_c" and CKernel is None:
+                continue
+            out["reuse%d:%s" % (i, cfg)] = guarded(runners[cfg], per_cfg_s)
     return dict(out=out, aux=aux)
 
 
